@@ -77,6 +77,23 @@ static std::string step(const Toks& t)
 		for (size_t i = 0; i < out.size(); i++) s += (i ? " " : "") + out[i].first + ":" + out[i].second;
 		return s.empty() ? "{}" : s;
 	}
+	if (op == "params") {
+		Dic<> d;
+		for (size_t i = 1; i < t.size(); i++) {
+			size_t c = t[i].find(':');
+			d[S(unhex(t[i].substr(0, c)))] = S(unhex(t[i].substr(c + 1)));
+		}
+		return lenhex(Url::params(d));
+	}
+	if (op == "pquery" && t.size() == 2) {
+		Dic<> r = Url::parseQuery(S(unhex(t[1])));
+		std::vector<std::pair<std::string, std::string> > out;
+		foreach2(String& k, const String& v, r)
+			out.push_back(std::make_pair(hex(*k, k.length()), hex(*v, v.length())));
+		std::string s;      // in the dictionary's own order
+		for (size_t i = 0; i < out.size(); i++) s += (i ? " " : "") + out[i].first + ":" + out[i].second;
+		return s.empty() ? "{}" : s;
+	}
 	if (op == "sha1" && t.size() == 2) {
 		Exact d(unhex(t[1]));
 		SHA1::Hash h = SHA1::hash((const byte*)d.p, (int)d.n);
